@@ -220,9 +220,11 @@ def run_case(case, rec):
             if isinstance(f, dict) and "dependency" in f:
                 flag = bool(ui[f["dependency"]]["value"])
                 on = flag if f.get("dependencyType", "enabled") == "enabled" else not flag
-                if not on:
+                if not on and (f.get("optional") or rng.random() < 0.5):
                     f["enabled"] = False
                     f.setdefault("optional", True)
+                elif not on:
+                    rec.see("inactive-dependency-left-enabled")  # a dependent form that is not optional keeps 'enabled': true in the file
                 rec.see("dependency:" + ("on" if on else "off"))
         # groupOptional: one member per group carries the switch; a disabled group is written the way the
         # application writes it, i.e. every member of the group carries enabled = False
@@ -351,6 +353,20 @@ def edit_values(rec, in_file, rng, kinds, ids):
         if kind is None or rng.random() < 0.4:
             continue
         form = in_file.ui_json[k]
+        if isinstance(form, dict) and "dependency" in form and "group" not in form and data.get(k) is not None:
+            # a dependent parameter whose controlling box says "off" may legitimately be emptied
+            flag = bool(data.get(form["dependency"]))
+            active = flag if form.get("dependencyType", "enabled") == "enabled" else not flag
+            if not active and rng.random() < 0.7:
+                try:
+                    in_file.set_data_value(k, None)
+                    done = True
+                    rec.see("edits:none-under-inactive-dependency")
+                except Exception as exc:  # noqa: BLE001
+                    if not exc_origin(exc)[0]:
+                        raise
+                    rec.see("edit-rejected:" + type(exc).__name__)
+            continue
         if isinstance(form, dict) and ("group" in form or "dependency" in form):
             continue  # what an edit inside a switched-off group / dependency means is not defined by the format
         if any(isinstance(f, dict) and f.get("dependency") == k for f in in_file.ui_json.values()):
